@@ -112,7 +112,7 @@ def run(ctx, res):
         for k, m in zip(r["oracle"], r["oracle_mult"]):
             mult[k] += m
         N = sum(mult.values())
-        if N == 0 or N > 120:
+        if N == 0 or N > (320 if not r["name"].startswith("gen-") else 120):
             continue
         done += 1
         _design.sample_case(res, r, {"available": N})
